@@ -27,18 +27,30 @@ func TestMain(m *testing.M) {
 		os.Exit(m.Run())
 	}
 	run = vk.Start("C08", "fault_enumeration")
-	run.Rule(rulePhased + " || " + ruleDHCP + " || scripts of <=6 steps over <=3 sessions {start, stop, duplicate start, stop of an unknown id, 1 s wait, 10 s interim tick} in 1-2 process incarnations ended by graceful Stop() or a scripted crash, plus a final quiesce incarnation; per-transmission outage script (closed port => ECONNREFUSED) with at most MaxRetries-2 refusals in total; a fixed set of hand-written scripts plus seeded random ones. Every script is run un-killed once (reference), then once per (verifPoint, occurrence) the reference run passed in any incarnation, the child killing itself with SIGKILL there, followed by a restart on the same directory that runs 90 s of virtual time with the server up. The oracle reads only the stream of Accounting-Requests the harness's UDP server answered, the API return values journalled by the child, and the directory. non-trivial = distinct (script, incarnation, point, occurrence) kill case in which the kill was reached after StartSession had been called for at least one session (or leftovers of an earlier incarnation were on disk) and the recovery incarnation ran to its end; reference runs with at least one refused transmission or a restart count as well; a counter-split case (TestCounterSplit: the 49 pairs of {0,1,2^32-1,2^32,2^32+1,2^40+7,2^64-1} plus seeded random pairs, sent as Stop and Interim through Client.SendAccounting and as Stop through StartSession/StopSession) is non-trivial when a supplied value is >= 2^32")
+	run.Rule(rulePhased + " || " + ruleDHCP + " || " + ruleGraceful + " || " + ruleMassEnd + " || scripts of <=6 steps over <=3 sessions {start, stop, duplicate start, stop of an unknown id, 1 s wait, 10 s interim tick} in 1-2 process incarnations ended by graceful Stop() or a scripted crash, plus a final quiesce incarnation; per-transmission outage script (closed port => ECONNREFUSED) with at most MaxRetries-2 refusals in total; a fixed set of hand-written scripts plus seeded random ones. Every script is run un-killed once (reference), then once per (verifPoint, occurrence) the reference run passed in any incarnation, the child killing itself with SIGKILL there, followed by a restart on the same directory that runs 90 s of virtual time with the server up. The oracle reads only the stream of Accounting-Requests the harness's UDP server answered, the API return values journalled by the child, and the directory. non-trivial = distinct (script, incarnation, point, occurrence) kill case in which the kill was reached after StartSession had been called for at least one session (or leftovers of an earlier incarnation were on disk) and the recovery incarnation ran to its end; reference runs with at least one refused transmission or a restart count as well; a counter-split case (TestCounterSplit: the 49 pairs of {0,1,2^32-1,2^32,2^32+1,2^40+7,2^64-1} plus seeded random pairs, sent as Stop and Interim through Client.SendAccounting and as Stop through StartSession/StopSession) is non-trivial when a supplied value is >= 2^32")
 	run.Assume("a transmission counts as accepted when the harness's server has sent the Accounting-Response (retransmissions with the same source, identifier and authenticator collapsed)")
 	run.Assume("crashes happen only at the 23 verifPoint markers of accounting.go (between persistence/transmit steps), not inside a file write; SIGKILL keeps completed writes (page cache), so fsync behaviour and torn files are out of reach")
 	run.Assume("'eventually' is bounded: after the last restart the server is up and 90 s of virtual time pass (all back-offs: base 1 s, max 4 s, MaxRetries 8)")
 	run.Assume("transmissions are serialised by the hook (a mutex from X:before-send to X:after-send) so that the per-transmission outage script is exact; the manager's goroutines otherwise run as they are")
 	run.Assume("phase-scripted patterns: one session, so every queue transmission before a Start got through is the Start, and the Stop is only transmitted afterwards (late StopSession positions are combined with B <= 2 so that no interim update can be queued beside the Start); the per-record refusal bounds (Start <= 1+B, Stop <= C, interim <= D+C) are checked on the harness's journal and a pattern outside MaxRetries-2 queue refusals per record is reported inconclusive, not judged")
+	run.Assume("graceful stop: a RADIUS server that hangs while Stop() runs is played in virtual time as an exchange that fails when its sender would have given up (client time-out, the drain's ShutdownTimeout, or the manager's own context being cancelled after the drain), the sends of the drain side by side; the thorough tier repeats the scenarios in real time against a port that never answers and judges them only when every exchange meant to be answered took less than half the client's time-out")
+	run.Assume("mass session end: 'eventually' is the limiter's longest possible wait (sessions / rate) several times over, in virtual time; the sessions' Starts are sent through the same limiter (PPPoE: by the harness)")
 	run.Assume("DHCP accounting: the handlers send Start/Stop from goroutines; the harness waits (synctest.Wait) until they have been answered before the next step, so the order of records of different steps is the order of the steps; stopAllAccounting is terminal (in production the server is closed before it runs)")
 	run.Floor("kill_cases_judged", 100)
 	run.Floor("accepted_stop", 100)
 	run.Floor(floorQueuedLater, 20)
 	run.Floor(floorRenewLapsed, 100)
 	run.Floor(floorDiscoverLapsed, 100)
+	run.Floor("graceful-restart: session open at Stop() [drain-off] got its one Stop after the restart", 10)
+	run.Floor("graceful-restart: session open at Stop() [drain-on,server-refusing] got its one Stop after the restart", 8)
+	run.Floor("graceful-restart: session open at Stop() [drain-on,server-hanging,timeout-longer-than-drain] got its one Stop after the restart", 4)
+	run.Floor("graceful_stop [drain-on,server-hanging,timeout-shorter-than-drain]", 4)
+	run.Floor("graceful_stop_transmissions_unanswered_server_hanging", 10)
+	run.Floor("points_enumerated_graceful_stop_scripts", 60)
+	run.Floor(floorMassSpread, 60)
+	run.Floor(floorMassBeyond, 600)
+	run.Floor(floorMassPPPoE, 300)
+	run.Floor("mass_end_dhcp_stops_acknowledged", 300)
 	code := m.Run()
 	ec := run.Finish()
 	if code != 0 && ec == 0 {
@@ -129,6 +141,11 @@ func curated() []*Script {
 		mk(0, Inc{Steps: []Step{st("start", 0), st("start", 1), st("stop", 0)}, End: g}, Inc{Steps: []Step{st("start", 2), st("tick", 0), st("stop", 2)}, End: g}),
 		mk(1, Inc{Steps: []Step{st("start", 0), st("stop", 0), st("start", 1)}, Down: []int{1, 2, 3}, End: g}, Inc{Steps: []Step{st("wait", 0), st("stop", 1)}, Down: []int{0}, End: "crash"}),
 		mk(0, Inc{Steps: []Step{st("start", 0), st("tick", 0), st("start", 1), st("tick", 0), st("stop", 0), st("stop", 1)}, Down: []int{2, 3}, End: g}),
+		// Stop() while the queue processor has an exchange in flight: the drain's Stop is refused and
+		// queued, the processor sends it at once, the server (answering 20 ms late) accepts it, and
+		// Stop() cancels the workers in the meantime
+		{NoKills: true, Incs: []Inc{{Steps: []Step{st("start", 0), st("start", 1), st("stop", 0)}, Down: []int{2, 3, 4}, End: g, LateMs: 20}}},
+		{NoKills: true, Incs: []Inc{{Steps: []Step{st("start", 0), st("start", 1), st("start", 2)}, Down: []int{3, 4}, End: g, LateMs: 20}}},
 	}
 }
 
@@ -261,7 +278,7 @@ func TestCrashEnumeration(t *testing.T) {
 		if err != nil {
 			t.Fatal(err)
 		}
-		defer w.srv.close()
+		defer w.close()
 		workers[i] = w
 	}
 
@@ -286,6 +303,21 @@ func TestCrashEnumeration(t *testing.T) {
 		rng := run.SubRand("phased-random", i)
 		sc := phasedRandom(rng)
 		finishScript(sc, fmt.Sprintf("q%03d", i), rng)
+		scripts = append(scripts, sc)
+	}
+	// graceful stop under every shutdown configuration, then restart
+	for i, sc := range gracefulExhaustive() {
+		finishScript(sc, fmt.Sprintf("g%03d", i), run.SubRand("graceful", i))
+		scripts = append(scripts, sc)
+	}
+	for i, n := 0, run.Pick(12, 40); i < n; i++ {
+		rng := run.SubRand("graceful-random", i)
+		sc := gracefulRandom(rng)
+		finishScript(sc, fmt.Sprintf("gr%03d", i), rng)
+		scripts = append(scripts, sc)
+	}
+	for i, sc := range gracefulRealtime(run.Thorough()) {
+		finishScript(sc, fmt.Sprintf("h%03d", i), run.SubRand("graceful-realtime", i))
 		scripts = append(scripts, sc)
 	}
 	if only := os.Getenv("C08_ONLY"); only != "" { // debugging aid: run a single script
@@ -328,7 +360,7 @@ func TestCrashEnumeration(t *testing.T) {
 
 	// phase 2: one kill case per (incarnation, point, occurrence) the reference run passed
 	var cases []killCase
-	for _, ref := range refs {
+	for ri, ref := range refs {
 		if ref == nil || !ref.ok {
 			continue
 		}
@@ -341,6 +373,10 @@ func TestCrashEnumeration(t *testing.T) {
 			run.Count("scripts_reference_only_phase_patterns", 1)
 			continue
 		}
+		if ref.sc.NoKills {
+			run.Count("scripts_reference_only_default_shutdown", 1)
+			continue
+		}
 		if runaway {
 			// the reference run was cut short after maxTransmissionsPerIncarnation transmissions and has
 			// been judged as it is; enumerating kill points of an endless re-send loop adds nothing
@@ -348,9 +384,38 @@ func TestCrashEnumeration(t *testing.T) {
 			continue
 		}
 		for k := range ref.incs {
-			for _, p := range pointsOf(ref.incs[k].J) {
+			pts := pointsOf(ref.incs[k].J)
+			if ref.incs[k].Def.Realtime {
+				continue // a kill point of a real-time incarnation cannot be replayed exactly
+			}
+			if ref.sc.KillFromShutdown && k == 0 {
+				pts = pointsFromShutdown(ref.incs[k].J)
+			}
+			graceful := ref.sc.KillFromShutdown || ref.incs[0].Def.Realtime
+			sd := ref.sc.Incs[0].Shutdown
+			// quick tier (thorough enumerates everything): the scripts that stop without draining are
+			// enumerated from Stop() on and through the first passage of every marker of the restart;
+			// of the others every second one (rotating with the seed), Stop() only; of the real-time
+			// ones the restart of those whose drain was cut short while the process lingered
+			sampled := graceful && !run.Thorough() && !(sd != nil && sd.NoDrain)
+			if sampled && ref.incs[0].Def.Realtime && !(sd.Versus == "timeout-shorter-than-drain" && sd.LingerMs > 0) {
+				run.Count("points_skipped_quick_tier_graceful_stop_scripts", len(pts))
+				continue
+			}
+			if sampled && !ref.incs[0].Def.Realtime && (k > 0 || (ri+int(run.Seed))%2 == 1) {
+				run.Count("points_skipped_quick_tier_graceful_stop_scripts", len(pts))
+				continue
+			}
+			for _, p := range pts {
+				if graceful && k > 0 && p.Occ > 0 && !run.Thorough() {
+					run.Count("points_skipped_quick_tier_graceful_stop_scripts", 1)
+					continue
+				}
 				cases = append(cases, killCase{ref: ref, k: k, point: p})
 				run.Count("points_enumerated", 1)
+				if graceful {
+					run.Count("points_enumerated_graceful_stop_scripts", 1)
+				}
 			}
 		}
 	}
@@ -395,7 +460,7 @@ func TestSilentDropRealtime(t *testing.T) {
 	if err != nil {
 		t.Fatal(err)
 	}
-	defer w.srv.close()
+	defer w.close()
 	waits := func(n int) []Step {
 		var out []Step
 		for i := 0; i < n; i++ {
